@@ -4,21 +4,10 @@
 (* every mutator.  Contract: the recorded changes applied to the initial         *)
 (* variables reproduce the current ones; saving and reloading preserves          *)
 (* (initial, current).  Maps are functions whose domain is a subset of Keys.     *)
-EXTENDS Naturals, Sequences, FiniteSets, TLC
-CONSTANTS Keys, Vals, MaxOps
-None == "<None>"
-Maps == UNION { [D -> Vals] : D \in SUBSET Keys }
+EXTENDS EnvVarsCore, TLC
+CONSTANTS MaxOps
 Empty == <<>>          \* the function with empty domain
-Put(m, k, v) == [x \in DOMAIN m \cup {k} |-> IF x = k THEN v ELSE m[x]]
-Drop(m, k) == [x \in DOMAIN m \ {k} |-> m[x]]
-\* apply a change map to a map
-Apply(ch, m) == [x \in (DOMAIN m \cup {k \in DOMAIN ch : ch[k] # None}) \ {k \in DOMAIN ch : ch[k] = None}
-                    |-> IF x \in DOMAIN ch THEN ch[x] ELSE m[x]]
-\* the minimal change map (what the lazy recomputation after from_json yields)
-Diff(ini, cur) == [x \in {k \in DOMAIN cur : k \notin DOMAIN ini \/ ini[k] # cur[k]} \cup (DOMAIN ini \ DOMAIN cur)
-                     |-> IF x \in DOMAIN cur THEN cur[x] ELSE None]
-
-VARIABLES initial, current, changes, n, hist
+VARIABLES n, hist
 vars == <<initial, current, changes, n, hist>>
 
 Init == /\ initial \in Maps /\ current = initial /\ changes = Empty /\ n = 0
@@ -27,30 +16,17 @@ Init == /\ initial \in Maps /\ current = initial /\ changes = Empty /\ n = 0
 Rec(name, args) == hist' = Append(hist, [op |-> name] @@ args)
 Step == n' = n + 1 /\ UNCHANGED initial
 
-Set(k, v) == /\ current' = Put(current, k, v) /\ changes' = Put(changes, k, v)
-             /\ Rec("Set", [k |-> k, v |-> v]) /\ Step
-Del(k) == /\ k \in DOMAIN current
-          /\ current' = Drop(current, k) /\ changes' = Put(changes, k, None)
-          /\ Rec("Del", [k |-> k]) /\ Step
-DelMissing(k) == /\ k \notin DOMAIN current /\ UNCHANGED <<current, changes>>
-                 /\ Rec("Del", [k |-> k]) /\ Step       \* raises KeyError, state unchanged
-Clear == /\ current' = Empty
-         /\ changes' = [x \in DOMAIN changes \cup DOMAIN current |-> IF x \in DOMAIN current THEN None ELSE changes[x]]
-         /\ Rec("Clear", <<>>) /\ Step
-Pop(k) == /\ current' = (IF k \in DOMAIN current THEN Drop(current, k) ELSE current)
-          /\ changes' = (IF k \in DOMAIN current THEN Put(changes, k, None) ELSE changes)
-          /\ Rec("Pop", [k |-> k]) /\ Step
-PopItem == /\ \E k \in DOMAIN current :          \* which key is dict-order; the trace says which
-                /\ current' = Drop(current, k) /\ changes' = Put(changes, k, None)
-           /\ Rec("PopItem", <<>>) /\ Step
-SetDefault(k, v) == /\ current' = (IF k \in DOMAIN current THEN current ELSE Put(current, k, v))
-                    /\ changes' = (IF k \in DOMAIN current THEN changes ELSE Put(changes, k, v))
-                    /\ Rec("SetDefault", [k |-> k, v |-> v]) /\ Step
-Update(m) == /\ current' = [x \in DOMAIN current \cup DOMAIN m |-> IF x \in DOMAIN m THEN m[x] ELSE current[x]]
-             /\ changes' = [x \in DOMAIN changes \cup DOMAIN m |-> IF x \in DOMAIN m THEN m[x] ELSE changes[x]]
-             /\ Rec("Update", [m |-> m]) /\ Step
-Reset == /\ current' = initial /\ changes' = Empty /\ Rec("Reset", <<>>) /\ Step
-JsonRT == /\ changes' = Diff(initial, current) /\ UNCHANGED current /\ Rec("JsonRT", <<>>) /\ Step
+\* every mutator = its effect on the state (EnvVarsCore.tla) + the history entry
+Set(k, v) == C_Set(k, v) /\ Rec("Set", [k |-> k, v |-> v]) /\ Step
+Del(k) == C_Del(k) /\ Rec("Del", [k |-> k]) /\ Step
+DelMissing(k) == C_DelMissing(k) /\ Rec("Del", [k |-> k]) /\ Step       \* raises KeyError, state unchanged
+Clear == C_Clear /\ Rec("Clear", <<>>) /\ Step
+Pop(k) == C_Pop(k) /\ Rec("Pop", [k |-> k]) /\ Step
+PopItem == C_PopItem /\ Rec("PopItem", <<>>) /\ Step       \* which key is dict-order; the trace says which
+SetDefault(k, v) == C_SetDefault(k, v) /\ Rec("SetDefault", [k |-> k, v |-> v]) /\ Step
+Update(m) == C_Update(m) /\ Rec("Update", [m |-> m]) /\ Step
+Reset == C_Reset /\ Rec("Reset", <<>>) /\ Step
+JsonRT == C_JsonRT /\ Rec("JsonRT", <<>>) /\ Step
 
 Next == /\ n < MaxOps
         /\ \/ \E k \in Keys, v \in Vals : Set(k, v) \/ SetDefault(k, v)
@@ -59,5 +35,4 @@ Next == /\ n < MaxOps
            \/ \E m \in Maps : Update(m)
 Spec == Init /\ [][Next]_vars
 View == <<initial, current, changes, n>>
-ChangesReproduceCurrent == Apply(changes, initial) = current
 =============================================================================
